@@ -45,6 +45,8 @@ func runC08(c *Ctx) {
 	ruleEncodeFreshBuffer(c, "C08.9")
 	ruleMutatorAtomic(c, "C08.10")
 	c01RootRelocation(c, "C08.11")
+	c02RecordDescribes(c, "C08.12")
+	c05KeywordLookup(c, "C08.13")
 }
 
 // ---- C08.1 -----------------------------------------------------------------
@@ -752,6 +754,7 @@ func runC14(c *Ctx) {
 	ruleErrorsNotDropped(c, "C14.8", "storage.(*BTree).insert", "storage.(*RelationService).Insert")
 	rulePostMutationInfallible(c, "C14.9")
 	c08Literals(c, "C14.10")
+	ruleNoRedundantSwitchBreak(c, "C14.11", "storage", "engine")
 }
 
 func c14RowValidationFirst(c *Ctx, rule string) {
@@ -870,6 +873,18 @@ func c14StatementLoops(c *Ctx, rule string) {
 			}
 			n++
 			key := f.Name + "|loop|" + calleeKey(cs.Callee)
+			// a mutator call nested in a second loop (per assignment, per column) is a different construct from
+			// the per-row loop: it gets its own key, so a recorded finding about the row loop does not cover it
+			depth := 0
+			for l := ast.Stmt(loop); l != nil; l = enclosingLoop(f.Decl.Body, l) {
+				depth++
+				if depth > 8 {
+					break
+				}
+			}
+			if depth > 1 {
+				key = f.Name + "|loop^" + itoa(depth) + "|" + calleeKey(cs.Callee)
+			}
 			sent := coneSentinels(w, cs.Targets...)
 			if len(sent) == 0 {
 				c.OK(rule, key, cs.Call.Pos(), len(cg.Reach(cs.Targets...)), "the mutator's call cone returns no row-validation error")
